@@ -286,7 +286,7 @@ func firstLine(s string) string {
 
 func TestCheck(t *testing.T) {
 	r := vp.New("C17", "exploration",
-		"provider records: chain-level lists = every sequence of length <=N over {main, X, Y} x per-entry metadata {nil, empty, equal to looked-up, different}; contextual sets for context IDs \"c\" and \"\" with the same alphabets (length <=M) and override on/off; metadata-list lengths {matching, truncated to every shorter length, one longer, nil} for lists of up to 3 providers; every record served directly and after a JSON round trip; lookups: context ID in {\"c\",\"d\",empty} x metadata {nil,\"m\"}. Non-trivial: records with at least one extended provider. Distinct = distinct (record, transport, lookup).",
+		"provider records: chain-level lists = every sequence of length <=N over {main, X, Y} x per-entry metadata {nil, empty, equal to looked-up, different}; contextual sets for context IDs \"c\" and \"\" with the same alphabets (length <=M) and override on/off; metadata-list lengths {matching, truncated to every shorter length, one longer, nil} for lists of up to 3 providers; every record served directly and after a JSON round trip, entering the cache by the constructor's preload refresh and by a lookup miss; lookups: context ID in {\"c\",\"d\",empty} x metadata {nil,\"m\"}. Non-trivial: records with at least one extended provider. Distinct = distinct (record, transport, lookup).",
 		"records whose metadata list length differs from the provider list: an error is accepted; where results are produced they are held to the expansion rules with a provider that has no entry in the metadata list counting as 'no metadata of its own (absent)'; surplus metadata entries are ignored",
 		"records with two contextual sets for the same context ID are not generated",
 	)
@@ -314,89 +314,96 @@ func TestCheck(t *testing.T) {
 		if !r.Mine("rec|" + rkey) {
 			return
 		}
-		for _, viaJSON := range []bool{false, true} {
-			pi := rc.build()
-			if viaJSON {
-				b, err := json.Marshal(pi)
+		// entry: how the record gets into the cache: with the preload refresh of
+		// the constructor, or by the first lookup missing (no preload)
+		for _, entry := range []string{"preload", "miss"} {
+			for _, viaJSON := range []bool{false, true} {
+				pi := rc.build()
+				if viaJSON {
+					b, err := json.Marshal(pi)
+					if err != nil {
+						panic(err)
+					}
+					pi = &model.ProviderInfo{}
+					if err := json.Unmarshal(b, pi); err != nil {
+						panic(err)
+					}
+				}
+				src := &fakeSource{infos: []*model.ProviderInfo{pi}}
+				pc, err := pcache.New(pcache.WithSource(src), pcache.WithRefreshInterval(0), pcache.WithPreload(entry == "preload"))
 				if err != nil {
 					panic(err)
 				}
-				pi = &model.ProviderInfo{}
-				if err := json.Unmarshal(b, pi); err != nil {
-					panic(err)
-				}
-			}
-			src := &fakeSource{infos: []*model.ProviderInfo{pi}}
-			pc, err := pcache.New(pcache.WithSource(src), pcache.WithRefreshInterval(0))
-			if err != nil {
-				panic(err)
-			}
-			for li, lk := range lookups {
-				key := fmt.Sprintf("rec|%s|json=%v|lookup=%d", rkey, viaJSON, li)
-				if r.Replaying() && r.ReplayKey() != key && r.ReplayKey() != "rec|"+rkey {
-					continue
-				}
-				r.Eval(key, rc.hasExt && (len(rc.chain.entries) > 0 || len(rc.ctxs) > 0))
-				var got []model.ProviderResult
-				var err error
-				pn, m := vp.Guard(func() { got, err = pc.GetResults(context.Background(), mainID, lk.ctx, lk.md) })
-				if pn {
-					r.Outcome("panic")
-					which := "chain-level"
-					if strings.Contains(m, "provider_cache.go") {
-						// classify by which list is mismatched
-						for _, c := range rc.ctxs {
-							if c.id == string(lk.ctx) && c.set.mismatch != 0 {
-								which = "contextual"
+				for li, lk := range lookups {
+					key := fmt.Sprintf("rec|%s|json=%v|lookup=%d", rkey, viaJSON, li)
+					if entry != "preload" {
+						key += "|entered-by-" + entry
+					}
+					if r.Replaying() && r.ReplayKey() != key && r.ReplayKey() != "rec|"+rkey {
+						continue
+					}
+					r.Eval(key, rc.hasExt && (len(rc.chain.entries) > 0 || len(rc.ctxs) > 0))
+					var got []model.ProviderResult
+					var err error
+					pn, m := vp.Guard(func() { got, err = pc.GetResults(context.Background(), mainID, lk.ctx, lk.md) })
+					if pn {
+						r.Outcome("panic")
+						which := "chain-level"
+						if strings.Contains(m, "provider_cache.go") {
+							// classify by which list is mismatched
+							for _, c := range rc.ctxs {
+								if c.id == string(lk.ctx) && c.set.mismatch != 0 {
+									which = "contextual"
+								}
 							}
 						}
+						r.Violation("GetResults:panic:metadata-list-mismatch:"+which, key, fmt.Sprintf("GetResults panicked for record %s lookup ctx=%q: %s", rkey, lk.ctx, firstLine(m)), nil)
+						continue
 					}
-					r.Violation("GetResults:panic:metadata-list-mismatch:"+which, key, fmt.Sprintf("GetResults panicked for record %s lookup ctx=%q: %s", rkey, lk.ctx, firstLine(m)), nil)
-					continue
-				}
-				if rc.mismatched() && err != nil {
-					// lists of different lengths: results or an error
-					r.Outcome("mismatch-error")
-					continue
-				}
-				if err != nil {
-					r.Violation("GetResults:error", key, err.Error(), nil)
-					continue
-				}
-				want := spec(rc, lk.ctx, lk.md)
-				if ok, why := sameResults(got, want); !ok {
-					r.Outcome("wrong")
-					r.Violation("GetResults:wrong:"+classify(rc, lk.ctx, got, want), key, fmt.Sprintf("record %s (json=%v) lookup ctx=%q md=%s: %s; got %v want %v", rkey, viaJSON, lk.ctx, mdStr(lk.md), why, fmtGot(got), want), nil)
-					continue
-				}
-				// the same lookup again on the same cache: same answer, and the first
-				// answer is left alone. Every further call gets private copies of
-				// its arguments (an answer legitimately contains the context ID and
-				// metadata slices the caller passed in).
-				cp := func(b []byte) []byte {
-					if b == nil {
-						return nil
+					if rc.mismatched() && err != nil {
+						// lists of different lengths: results or an error
+						r.Outcome("mismatch-error")
+						continue
 					}
-					return append([]byte{}, b...)
-				}
-				first := fmtGot(got)
-				var got2 []model.ProviderResult
-				var err2 error
-				if pn, m := vp.Guard(func() { got2, err2 = pc.GetResults(context.Background(), mainID, cp(lk.ctx), cp(lk.md)) }); pn {
-					r.Violation("GetResults:panic:second-call", key, firstLine(m), nil)
-					continue
-				}
-				if err2 != nil || fmtGot(got2) != first {
-					r.Violation("GetResults:second-call-differs", key, fmt.Sprintf("record %s lookup ctx=%q: first call %s, second call %s (err %v)", rkey, lk.ctx, first, fmtGot(got2), err2), nil)
-					continue
-				}
-				if fmtGot(got) != first {
-					r.Violation("GetResults:first-answer-altered-by-second-call", key, fmt.Sprintf("first answer was %s and reads %s after a second call", first, fmtGot(got)), nil)
-					continue
-				}
-				r.Outcome(fmt.Sprintf("ok-%d-results", len(got)))
-				if len(got) >= 4 {
-					r.Sample(map[string]any{"record": rkey, "lookup_ctx": string(lk.ctx), "results": fmt.Sprint(want)})
+					if err != nil {
+						r.Violation("GetResults:error", key, err.Error(), nil)
+						continue
+					}
+					want := spec(rc, lk.ctx, lk.md)
+					if ok, why := sameResults(got, want); !ok {
+						r.Outcome("wrong")
+						r.Violation("GetResults:wrong:"+classify(rc, lk.ctx, got, want), key, fmt.Sprintf("record %s (json=%v) lookup ctx=%q md=%s: %s; got %v want %v", rkey, viaJSON, lk.ctx, mdStr(lk.md), why, fmtGot(got), want), nil)
+						continue
+					}
+					// the same lookup again on the same cache: same answer, and the first
+					// answer is left alone. Every further call gets private copies of
+					// its arguments (an answer legitimately contains the context ID and
+					// metadata slices the caller passed in).
+					cp := func(b []byte) []byte {
+						if b == nil {
+							return nil
+						}
+						return append([]byte{}, b...)
+					}
+					first := fmtGot(got)
+					var got2 []model.ProviderResult
+					var err2 error
+					if pn, m := vp.Guard(func() { got2, err2 = pc.GetResults(context.Background(), mainID, cp(lk.ctx), cp(lk.md)) }); pn {
+						r.Violation("GetResults:panic:second-call", key, firstLine(m), nil)
+						continue
+					}
+					if err2 != nil || fmtGot(got2) != first {
+						r.Violation("GetResults:second-call-differs", key, fmt.Sprintf("record %s lookup ctx=%q: first call %s, second call %s (err %v)", rkey, lk.ctx, first, fmtGot(got2), err2), nil)
+						continue
+					}
+					if fmtGot(got) != first {
+						r.Violation("GetResults:first-answer-altered-by-second-call", key, fmt.Sprintf("first answer was %s and reads %s after a second call", first, fmtGot(got)), nil)
+						continue
+					}
+					r.Outcome(fmt.Sprintf("ok-%d-results", len(got)))
+					if len(got) >= 4 {
+						r.Sample(map[string]any{"record": rkey, "lookup_ctx": string(lk.ctx), "results": fmt.Sprint(want)})
+					}
 				}
 			}
 		}
